@@ -53,6 +53,11 @@ type entSpec struct {
 
 	OrigTTL []uint32 `json:"orig_ttl"`
 	MinTTL  uint32   `json:"min_ttl"`
+
+	// (f) sized answers
+	SizeClass int `json:"size_class,omitempty"`         // target uncompressed bytes
+	WireLen   int `json:"wire_bytes,omitempty"`         // the upstream's (compressed) reply
+	PackedLen int `json:"uncompressed_bytes,omitempty"` // what the cache re-packs
 }
 
 var replyKinds = []string{"a", "aaaa", "cname-a", "mx-extra", "txt", "nodata", "nxdomain", "servfail", "srv", "ns-glue", "unknown-type", "caa", "https", "bigtxt", "soa", "edns-a", "flags-a"}
